@@ -213,7 +213,11 @@ func GenSpec(rg *rand.Rand, o GenOpts) (*tls.ClientHelloSpec, SpecDesc) {
 		add("compress_cert", &tls.UtlsCompressCertExtension{Algorithms: algs})
 	}
 	if maybe(15) && !o.ForHandshake {
-		add("generic", &tls.GenericExtension{Id: uint16(0x8000 + rg.Intn(0x1000)), Data: randBytes(rg, rg.Intn(60))})
+		gid := uint16(0x8000 + rg.Intn(0x1000))
+		if wire.IsGREASE(gid) {
+			gid++ // 0x8a8a is a GREASE code point: it could coincide with the value a GREASE extension draws
+		}
+		add("generic", &tls.GenericExtension{Id: gid, Data: randBytes(rg, rg.Intn(60))})
 	}
 	if d.TLS13 {
 		vers := []uint16{}
